@@ -137,6 +137,32 @@ def run_job(job, rec):
         w_max = np.sqrt(np.linalg.eigvalsh(invM).max() * (np.linalg.eigvalsh(pot.P).max() + 6.0) / (s * s) / T)
         tau_unit = 1.0 / w_max
         mom_scale = np.sqrt(np.diag(M))
+        # ---- a mass estimated from the chain's own samples (estimate_mass) is one more accepted mass specification: the chain is
+        #      advanced a little, the mass re-estimated, and every oracle below then uses the variance / covariance of those samples
+        if c % 5 == 2:
+            ch.ES.epsilon = 0.3 * tau_unit   # a stable step for the stepping below (the default 0.1 is meaningless at parameter scales of 1e-8)
+            r_adv = guarded(lambda: [ch.take_step() for _ in range(int(rng.integers(25, 60)))])
+            if isinstance(r_adv, Raised):
+                rec.violation("raised", f"take_step raised {r_adv!r}", cfg)
+                continue
+            b_, t_ = int(rng.choice([0, 1, 5])), int(rng.choice([1, 2]))
+            dense = bool(d >= 2 and rng.random() < 0.6)
+            r_est = guarded(ch.estimate_mass, burn=b_, thin=t_, diagonal=not dense)
+            if isinstance(r_est, Raised):
+                rec.violation("raised", f"estimate_mass(burn={b_}, thin={t_}, diagonal={not dense}) raised {r_est!r}", cfg)
+                continue
+            smp = np.array([np.asarray(v, float) for v in ch.theta[b_::t_]])
+            V = np.cov(smp.T).reshape(d, d) if dense else np.diag(np.var(smp, axis=0))
+            if np.linalg.cond(V) > 1e8:
+                continue
+            invM, M = V, np.linalg.inv(V)
+            mass_kind = "matrix" if dense else "vector"
+            cfg = {**cfg, "mass": mass_kind + " (estimate_mass)", "estimate_mass": {"burn": b_, "thin": t_, "diagonal": not dense}}
+            rec.context = cfg
+            rec.count("cases:estimated_mass")
+            w_max = np.sqrt(np.linalg.eigvalsh(invM).max() * (np.linalg.eigvalsh(pot.P).max() + 6.0) / (s * s) / T)
+            tau_unit = 1.0 / w_max
+            mom_scale = np.sqrt(np.diag(M))
         if c < 2:
             rec.sample(cfg)
 
